@@ -262,3 +262,17 @@ Definition build_ok_b (f : fs) (o : cli_obs) : bool :=
        | ONoCommands => match fs_get f (e_project (spec_eff_build f)) with Some NProj => false | _ => true end
        | ORejected _ => false
        end.
+
+(* ---------------------------------------------------------------- init -o <standalone file> *)
+(* refused before anything is written when the settings are invalid (whatever the shape of
+   the missing project path) or when an existing file would be overwritten without --force;
+   otherwise the file created reads back as exactly the settings given *)
+Definition init_file_ok_b (f : fs) (il : iflags) (force : bool) (o : cli_obs) (after : option json) : bool :=
+  if init_invalid f il then match o with ORejected true => true | _ => false end
+  else if fs_exists f (or_else (i_output il) "tauri.conf.json") && negb force
+       then match o with ORejected true => true | _ => false end
+       else match o, after with
+            | ORejected _, _ => false
+            | _, Some a => flat_roundtrip_b (init_config il) (from_flat a)
+            | _, None => false
+            end.
